@@ -521,16 +521,17 @@ def desc_level(b):
     return None
 
 
-def closure_paths(fb, cl, elem=ELEM):
+def closure_paths(fb, cl, elem=ELEM, args=None):
     """the return paths of a closure term as [(conditions, returned value)], written over the caller's values: the closure's own
-    argument becomes `elem` and every captured variable the term it had in the caller when the closure was built"""
+    argument becomes `elem` (several arguments: `args`, in order) and every captured variable the term it had in the caller when
+    the closure was built"""
     from .symex import Engine, subst
     if not (isinstance(cl, tuple) and cl and cl[0] == "closure"):
         return None
     it = fb.items.get(cl[1])
     if it is None:
         return None
-    m1 = {P(2): elem}
+    m1 = {P(2): elem} if args is None else {P(2 + k): a for k, a in enumerate(args)}
     m2 = {F(P(1), str(k)): v for k, v in enumerate(cl[2])}
     tr = lambda t: subst(subst(t, m1), m2) if isinstance(t, tuple) else t
     eng = Engine(fb, inline=lambda i: False)
@@ -540,3 +541,20 @@ def closure_paths(fb, cl, elem=ELEM):
             continue
         out.append(([(tr(a), v) for a, v in p.conds()], tr(eng.value_of(p.store, p.ret))))
     return out
+
+
+ACC = ("acc",)
+
+
+def fold_term(fb, t):
+    """`(lo..hi).fold(init, |acc, j| step)` as (lo, hi, init, step over ACC and ELEM), the closure evaluated on its single path; None when
+    `t` is not such a call"""
+    if not (isinstance(t, tuple) and t and t[0] == "call" and t[1].endswith("Iterator::fold") and len(t[2]) == 3):
+        return None
+    r, init, cl = t[2]
+    if not (isinstance(r, tuple) and r[0] == "adt" and r[1].endswith("ops::Range")):
+        return None
+    cps = closure_paths(fb, cl, args=[ACC, ELEM])
+    if not cps or len(cps) != 1 or cps[0][0]:
+        return None
+    return r[4][0], r[4][1], init, cps[0][1]
